@@ -196,6 +196,23 @@ class StackSim:
                 self.ghost.append([self.now(), 1, _dest(remote), [conv.s_entry(entry)]])   # handed over at once
             return orig_queue(entry, remote=remote)
         self.prot.announcer.queue_send = queue_send
+        # registration of a recording listener that already has a registration (model: ghost event GMulti - finding F13's domain)
+        disc = self.prot.discovery
+        orig_watch, orig_watch_all = disc.watch_service, disc.watch_all_services
+
+        def note_multi(listener):
+            if isinstance(listener, RecClient) and (listener in disc.watcher_all_services
+                                                    or any(listener in ls for ls in disc.watched_services.values())):
+                self.ghost.append([self.now(), 5, listener.lid])
+
+        def watch_service(service, listener):
+            note_multi(listener)
+            return orig_watch(service, listener)
+
+        def watch_all_services(listener):
+            note_multi(listener)
+            return orig_watch_all(listener)
+        disc.watch_service, disc.watch_all_services = watch_service, watch_all_services
         # an exception that escapes a loop callback (e.g. a collector flush that cannot be encoded) is recorded where and when it happens
         self.loop.set_exception_handler(lambda loop, ctx: self.emit([5, conv.err_code(ctx.get("exception")) if ctx.get("exception") else 98]))
         self.clients = {}
